@@ -415,8 +415,28 @@ TRAVERSALS = {"_evaluate", "_numeric_partial", "_compute_numeric_partials"}
 def check_reset_dominance(rep, model: Model, rule: str) -> None:
     """Every *root* call of a traversal (one made outside the protocol's own recursive methods) is
     dominated by <same receiver>._reset_evaluation_cache()."""
+    # functions that only ever run *inside* a traversal (the traversal methods themselves and
+    # helpers called from nowhere else): calls they make are recursive steps, not root calls
+    from .callgraph import CallGraph
+    cg = CallGraph(model)
+    roots = [q for q, f in model.functions.items() if f.name in TRAVERSALS]
+    inside = set(cg.reachable(roots))
+    callers = {}
+    for q, outs in cg.edges.items():
+        for o in outs:
+            callers.setdefault(o, set()).add(q)
+    changed = True
+    while changed:
+        changed = False
+        for q in list(inside):
+            f = model.functions.get(q)
+            if f is None or f.name in TRAVERSALS or f.name in PROTOCOL_RECURSIVE:
+                continue
+            if any(c not in inside for c in callers.get(q, ())):
+                inside.discard(q)
+                changed = True
     for fi in model.all_functions():
-        if fi.name in PROTOCOL_RECURSIVE or fi.is_abstract:
+        if fi.name in PROTOCOL_RECURSIVE or fi.is_abstract or fi.qualname in inside:
             continue
         cfg = None
         for n_ast in ast.walk(fi.node):
